@@ -192,9 +192,11 @@ class GCACGMMTrainer:
             ]
 
         if saliency is None:
-            saliency = np.ones_like(initialization[..., 0, :])
+            saliency = np.ones_like(
+                initialization[..., 0, :], dtype=observation.real.dtype)
 
-        quadratic_form = np.ones_like(initialization)
+        quadratic_form = np.ones_like(
+            initialization, dtype=observation.real.dtype)
         affiliation = initialization
         model = None
         for iteration in range(iterations):
